@@ -14,6 +14,9 @@ type Buffer[T SignalTypes] struct {
 
 // Slice the Buffer with respect to channels.
 func (b *Buffer[T]) Slice(start, end int) *Buffer[T] {
+	if start < 0 || start > end || end > b.Capacity() {
+		panic("slice bounds out of range")
+	}
 	start = b.BufferIndex(0, start)
 	end = b.BufferIndex(0, end)
 	return &Buffer[T]{
